@@ -35,7 +35,7 @@ ASSUMPTIONS = [
 	"GLU and Softmax are not element-wise and are outside the statement",
 	"each activation module instance is used once (sequential models)",
 ]
-REQUIRED = {"prior_override_calls": 10, "pairs_checked": 200, "archs_with_maxpool": 5}
+REQUIRED = {"custom_reference_function_calls": 3, "float32_reference_calls": 3, "prior_override_calls": 10, "pairs_checked": 200, "archs_with_maxpool": 5}
 TECHNIQUE = ("runtime monitoring: completeness oracle (plain forward passes) "
 	"on every observed deep_lift_shap result over generated architectures; "
 	"warnings monitor")
@@ -86,6 +86,17 @@ def run_case(cls, params, rec):
 	rbase = None
 	if refs is not None:
 		refs, rbase = gen.relayout(refs, gen.layout_of(params, "refs"))
+		if params.get("refs_dtype") == "float32" or ("refs_dtype" not in
+			params and gen.pyrng("C04refdt", repr(sorted((k_, repr(v_))
+			for k_, v_ in params.items() if k_ != "layout"))).randrange(
+			4) == 0):
+			# references held in single precision (values exactly
+			# representable in the model's double precision)
+			refs = refs.float()
+			params = dict(params, refs_dtype="float32")
+			rec.count("float32_reference_calls")
+		else:
+			params = dict(params, refs_dtype="float64")
 	target = params["target"]
 	mp = dls.maxpool_class(spec)
 	has_mp = any(s["t"] == "maxpool" for s in spec)
@@ -105,8 +116,20 @@ def run_case(cls, params, rec):
 	if refs is not None:
 		kw["references"] = refs
 	else:
+		def custom_refs(Xb, n=1, random_state=None, **_):
+			# a caller-written reference function: a soft (frequency-like)
+			# background, deterministic in (sequence, seed)
+			code = int((Xb.to(torch.float64) * torch.arange(1, Xb[0].numel()
+				+ 1, dtype=torch.float64).reshape(Xb.shape[1:])).sum()) % 9973
+			g = torch.Generator().manual_seed(code * 131 + int(
+				random_state or 0))
+			return torch.softmax(torch.randn((Xb.shape[0], n) + tuple(
+				Xb.shape[1:]), generator=g, dtype=torch.float64) * 2,
+				dim=2).type(Xb.dtype)
 		kw["references"] = {"dinuc": ersatz.dinucleotide_shuffle,
-			"shuffle": ersatz.shuffle}[params["refs"]]
+			"shuffle": ersatz.shuffle, "custom": custom_refs}[params["refs"]]
+		if params["refs"] == "custom":
+			rec.count("custom_reference_function_calls")
 		kw["n_shuffles"] = ns
 		kw["random_state"] = params["random_state"]
 		kw["return_references"] = True
@@ -157,6 +180,8 @@ def run_case(cls, params, rec):
 		mult, used = val
 	else:
 		mult, used = val, refs
+	used_arg = used
+	used = used.type(torch.float64)
 	if tuple(mult.shape) != (n, ns, A, L) or tuple(used.shape) != (n, ns, A,
 		L):
 		rec.violation(cls, params, dict(desc, what="shape of raw output %s / "
@@ -198,7 +223,7 @@ def run_case(cls, params, rec):
 	kw2.pop("return_references", None)
 	kw2.pop("random_state", None)
 	kw2.pop("n_shuffles", None)
-	kw2["references"] = used
+	kw2["references"] = used_arg
 	with warnings.catch_warnings(record=True) as wlog2:
 		warnings.simplefilter("always")
 		st2, attr = gen.call(deep_lift_shap, model, X, **kw2)
@@ -295,6 +320,8 @@ def gen_case(seed, k):
 	n = r.randint(1, 3)
 	ns = r.randint(1, 6)
 	refs = r.choice(["given", "given", "dinuc", "shuffle"])
+	if k % 16 == 11:
+		refs = "custom"
 	if L < 8 and refs == "dinuc":
 		refs = "shuffle"
 	return {"A": A, "L": L, "spec": spec, "wseed": r.randrange(10 ** 6),
